@@ -196,7 +196,7 @@ def reshapeOut (rs : List Nat) (ev : Tensor R) : MatF R :=
 
 /-- model of `Kronecker._matmat` -/
 def kronMatmat [Zero R] (Ms : List (FacAct R)) (b : Nat) (v : MatF R) : MatV R :=
-  ⟨reshapeOut (Ms.map (·.r)) (kronLoop 0 Ms (reshapeIn (Ms.map (·.c)) b v))⟩
+  MatV.of (reshapeOut (Ms.map (·.r)) (kronLoop 0 Ms (reshapeIn (Ms.map (·.c)) b v)))
 
 /-- represented matrix of the Kronecker product (row-major multi-index convention of np.kron) -/
 def kronDen [MulZeroOneClass R] (Ms : List (FacAct R)) : MatF R :=
@@ -212,7 +212,7 @@ theorem kronMatmat_eq [CommSemiring R] (Ms : List (FacAct R)) (hM : ∀ M ∈ Ms
   have h := kronLoop_get Ms hM (reshapeIn (Ms.map (·.c)) b v) [] b [] (unravel (Ms.map (·.r)) I) col
     (by simp [reshapeIn]) trivial hinb hcol
   simp only [List.length_nil, List.nil_append] at h
-  simp only [kronMatmat, reshapeOut, h]
+  simp only [kronMatmat, MatV.of_f, reshapeOut, h]
   rw [boxSum_eq_flat]
   apply Finset.sum_congr rfl
   intro J hJ
